@@ -285,8 +285,13 @@ def run_case(label, kind, arg, keep_dir=None):
     with _load.Scratch() as d:
         out.write(d)
         if label not in _FULL:
-            ds, _ = _load.load(d, out.nout)
-            _FULL[label] = snapshot(ds)
+            try:
+                ds, _ = _load.load(d, out.nout)
+                _FULL[label] = snapshot(ds)
+            except Exception as e:
+                import traceback
+
+                _FULL[label] = ("raised", type(e).__name__, traceback.format_exc()[-500:])
         full = _FULL[label]
         sel = to_select(kind, arg)
         try:
@@ -294,7 +299,12 @@ def run_case(label, kind, arg, keep_dir=None):
         except Exception as e:
             import traceback
 
+            if isinstance(full, tuple):
+                return []  # the full load of this output is refused too: there is no projection to disagree with
             return [("load-raised:" + type(e).__name__, {"trace": traceback.format_exc()[-500:]})]
+    if isinstance(full, tuple):
+        # the selection returns data from an output whose full load raises: it cannot be the projection of it
+        return [("selection-loads-what-the-full-load-refuses:" + full[1], {"full_load_trace": full[2]})]
     got = snapshot(ds)
     try:
         exp, focus = expected_from_full(out, full, kind.partition("@")[0], arg)
